@@ -806,6 +806,19 @@ def install(w):
     L["inspect.signature"] = inspect_signature
     w.obj_methods[("paramdict", "values")] = lambda ex, o, a, k, l: o.attrs["_values"]
 
+    def pyset_update(ex, o, args, kw, line):
+        """set.update(iterable) / set.add(x) on an opaque set: afterwards it is SOME set (its
+        membership predicate is a new unknown); the argument is consumed (a generator is run for
+        the safety of its element expression only)."""
+        for a_ in args:
+            if isinstance(a_, Z) and a_.t.sort() == ex.S.Py:
+                pass
+        o.attrs["id"] = Z(ex.fresh("set'", ex.S.Py))
+        o.attrs.pop("n", None)
+        return Z(ex.P.PNone)
+    w.obj_methods[("pyset", "update")] = pyset_update
+    w.obj_methods[("pyset", "add")] = pyset_update
+
     def typing_get_type_hints(ex, args, kw, e, env):
         S = ex.S
         m = ex.new_map()
@@ -909,6 +922,17 @@ def quant_symbolic(ex, a, g, seq, env, is_any):
     env2[g.target.id] = Z(h, origin=f"element of {seq.origin or 'list'}")
     saved = len(ex.ctx.pc)
     saved_known = dict(ex.ctx.known)
+    # a fact about EVERY element of the sequence ("quant_elems": {ordinal: spec predicate}): proved
+    # of the sequence here, then known of the generic element while its condition is evaluated
+    # (what makes e.g. `a.arg` safe for the elements of a parameter list)
+    from .loops import comp_ordinal
+    pred = ex.contract.get("quant_elems", {}).get(comp_ordinal(ex.fn, a))
+    if pred is not None and not ex.spec_mode:
+        sf = ex.w.specs[pred]
+        ex.oblige("inv", f"quant:{pred}-of-every-element", sf.all_lift()(seq.t), getattr(a, "lineno", None),
+                  note=f"every element of the sequence satisfies {pred}")
+        ex.ctx.pc.append(sf.f(h))
+        ex.learn(sf.f(h))
     conds = []
     for c in g.ifs:
         cz = ex.to_bool(ex.ev(c, env2))
